@@ -25,8 +25,9 @@ void hcpu_crc_force(void);
 void hcpu_aes_force(void);
 void hcpu_ctr_force(void);
 
-/* the static SHA256_Transform (dispatching) on an arbitrary chaining value */
-void hcpu_sha_transform(uint32_t state[8], const uint8_t block[64]);
+/* the static SHA256_Transform (dispatching) on an arbitrary chaining value; W = its scratch array, which
+ * the portable and the SSE2 variant leave filled with the message schedule (SHA-NI does not touch it) */
+void hcpu_sha_transform(uint32_t state[8], const uint8_t block[64], uint32_t W[64]);
 
 /* white-box view of struct crypto_aesctr */
 struct crypto_aesctr;
